@@ -147,6 +147,38 @@ class Resolver:
             for a in self.resolve(fn_node, expr.orelse, mapping, depth + 1, scopes):
                 out.append(Alt(a.expr, [(subst(expr.test, mapping), False)] + a.guards))
             return out
+        if isinstance(expr, ast.Call) and isinstance(expr.func, ast.Name) and expr.func.id not in mapping:
+            # f = partial(g, a, k=v); f(x)  ==  g(a, x, k=v)
+            for sc in reversed(scopes):
+                pd = [s for s, _ in _own_stmts_with_guards(sc) if isinstance(s, ast.Assign) and any(isinstance(t, ast.Name) and t.id == expr.func.id for t in s.targets)]
+                if len(pd) == 1 and isinstance(pd[0].value, ast.Call) and getattr(pd[0].value.func, "id", getattr(pd[0].value.func, "attr", None)) == "partial" and pd[0].value.args and isinstance(pd[0].value.args[0], ast.Name):
+                    pc = pd[0].value
+                    bound = self.resolve(sc, ast.Call(func=pc.args[0], args=list(pc.args[1:]) + [ast.Name(id=f"__late{i}", ctx=ast.Load()) for i in range(len(expr.args))], keywords=list(pc.keywords) + [ast.keyword(arg=k.arg, value=ast.Name(id=f"__latek{i}", ctx=ast.Load())) for i, k in enumerate(expr.keywords)]), {} if sc is not fn_node else mapping, depth + 1, scopes[: scopes.index(sc) + 1])
+                    late = {f"__late{i}": a for i, a in enumerate(expr.args)}
+                    late.update({f"__latek{i}": k.value for i, k in enumerate(expr.keywords)})
+                    out = []
+                    for b in bound:
+                        for a in self.resolve(fn_node, subst(b.expr, late), mapping, depth + 1, scopes):
+                            out.append(Alt(a.expr, [(subst(t, late), br) for t, br in b.guards] + a.guards))
+                    return out[: self.limit]
+                if pd:
+                    break
+        if isinstance(expr, ast.Call) and isinstance(expr.func, ast.Name) and expr.keywords and all(k.arg is not None for k in expr.keywords):
+            # keywords naming parameters of a resolvable helper: rewrite positionally
+            callee = None
+            for sc in reversed(scopes):
+                callee = self.nested_defs(sc).get(expr.func.id) or callee
+            callee = callee or self.module_functions.get(expr.func.id)
+            if callee is not None and expr.func.id not in mapping:
+                ps = _params(callee)
+                rest = ps[len(expr.args):]
+                kw = {k.arg: k.value for k in expr.keywords}
+                if set(kw) <= set(rest) and not any(isinstance(a, ast.Starred) for a in expr.args):
+                    need = rest[: max(rest.index(k) for k in kw) + 1]
+                    dflt = dict(zip(reversed(ps[: len(callee.args.posonlyargs) + len(callee.args.args)]), reversed(callee.args.defaults)))
+                    dflt.update({a.arg: d for a, d in zip(callee.args.kwonlyargs, callee.args.kw_defaults) if d is not None})
+                    if all(p in kw or p in dflt for p in need):
+                        expr = ast.Call(func=expr.func, args=list(expr.args) + [kw[p] if p in kw else dflt[p] for p in need], keywords=[])
         if isinstance(expr, ast.Call) and isinstance(expr.func, ast.Name) and not expr.keywords:
             callee = None
             for sc in reversed(scopes):
